@@ -40,6 +40,7 @@ func init() {
 }
 
 type turnScript struct {
+	permDelay time.Duration // CreatePermission successes are answered this much later
 	mu        sync.Mutex
 	rng       *rand.Rand
 	relay     *net.UDPAddr
@@ -130,7 +131,11 @@ func (ts *turnScript) handler(s *sim.ScriptedServer, from *net.UDPAddr, ev sim.S
 		}
 		switch kind {
 		case 0:
-			s.Send(from, wire.NewBuilder(m.Method, wire.ClassSuccess, m.TID).Bytes(), 0)
+			d := time.Duration(0)
+			if m.Method == wire.MethodCreatePermission {
+				d = ts.permDelay
+			}
+			s.Send(from, wire.NewBuilder(m.Method, wire.ClassSuccess, m.TID).Bytes(), d)
 		case 1:
 			s.Send(from, errResp(m.Method, m.TID, 400, ""), 0)
 		case 2:
@@ -459,31 +464,65 @@ func (x *c13) runUDP(tier string, caseNo int) {
 	released := make(chan error, 1)
 	go func() {
 		b := make([]byte, 100)
-		_, _, err := conn.ReadFrom(b)
-		released <- err
+		for {
+			// (a datagram that still comes in before Close is handed over as usual)
+			if _, _, err := conn.ReadFrom(b); err != nil {
+				released <- err
+
+				return
+			}
+		}
 	}()
 	time.Sleep(time.Millisecond)
-	deadSocket := rng.Intn(3) == 0
+	// the application asks for one more permission (answered 300 ms later) while it closes the
+	// socket and a datagram comes in: Close returns, the request ends one way or the other
+	apiDone := make(chan error, 1)
+	apiRace := rng.Intn(3) == 0
+	if apiRace {
+		x.ts.mu.Lock()
+		x.ts.permW, x.ts.permDelay, x.ts.noSilence = [5]int{1, 0, 0, 0, 0}, 300*time.Millisecond, true
+		x.ts.mu.Unlock()
+		go func() {
+			apiDone <- x.rc.Client.CreatePermission(&net.UDPAddr{IP: net.IPv4(10, 4, 0, 1).To4(), Port: 9100})
+		}()
+		time.Sleep(10 * time.Millisecond)
+		x.inboundInd(x.peers[0], []byte("arrives-while-closing"))
+	}
+	deadSocket := rng.Intn(3) == 0 && !apiRace
 	if deadSocket {
 		x.rc.Conn.SetWriteHook(func([]byte, net.Addr) (int, error, bool) { return 0, errors.New("injected: socket is gone"), true })
 	}
 	_ = conn.Close()
 	select {
-	case err := <-released:
-		if err == nil {
-			x.rec.Violate("readfrom-after-close", "blocked-reader-got-data", "a blocked ReadFrom returned data when the socket was closed")
-		}
+	case <-released:
 	case <-time.After(30 * time.Second):
 		x.rec.Violate("readfrom-after-close", "blocked-reader", "a ReadFrom blocked before Close was still blocked 30 s after Close (socket toward the server failing: %v)", deadSocket)
 	}
 	x.rc.Conn.SetWriteHook(nil)
 	x.rec.FP("close/releases-reader/dead-socket=%v", deadSocket)
+	if apiRace {
+		select {
+		case <-apiDone:
+		case <-time.After(5 * time.Second):
+			x.rec.Violate("inbound-blocked", "createpermission-vs-close", "Client.CreatePermission, answered by the server after 300 ms, had not returned 5 s later (the relayed socket was being closed and a datagram came in meanwhile)")
+		}
+		x.ts.mu.Lock()
+		x.ts.permDelay = 0
+		x.ts.mu.Unlock()
+		x.rec.FP("close/while-createpermission-in-flight")
+	}
 	buf := make([]byte, 100)
 	if !x.setDeadline("SetReadDeadline", time.Now().Add(time.Second)) {
 		return
 	}
-	if _, _, err := conn.ReadFrom(buf); err == nil {
-		x.rec.Violate("readfrom-after-close", "nil-error", "ReadFrom returned no error after Close")
+	gotErr := false
+	for k := 0; k < 4 && !gotErr; k++ {
+		// (what was queued before Close may still be handed over)
+		_, _, err := conn.ReadFrom(buf)
+		gotErr = err != nil
+	}
+	if !gotErr {
+		x.rec.Violate("readfrom-after-close", "nil-error", "ReadFrom keeps returning data and no error after Close")
 	}
 	if _, err := conn.WriteTo([]byte("to:00000#000000|late"), x.peers[0]); err == nil {
 		x.rec.Violate("readfrom-after-close", "write", "WriteTo returned no error after Close")
